@@ -18,3 +18,12 @@ claim("C02",
       "rule tables over the accept→append→consume→schedule→read-back→write chain: dominance, error discipline, three-valued evaluation of the job discriminator over constructor literals, provenance, constant relations (go/ssa)",
       "Decides that the hand-over chain is unbroken on every path: ack only after a nil Distribute, no lost append error, the consume callback schedules its own offset, the writer's log/direct discriminator is definitely right for both job constructors (offset 0 included), the log branch reads back its own offset, Get seeks to it, truncation keeps a margin larger than the writer queue. Necessary conditions; no execution.",
       "Not decided: segment roll / batching inside commitlog, payload integrity through protobuf, read failures in the writer, queue shutdown drops.")
+
+claim("C03",
+      "path-sensitive decision tables of every outbound in-flight callback over uninterpreted atoms (expired, session registered), provenance of packet/identifier/session, nil-branch guards, structural wiring of the sweep and of the ack routing (go/ssa)",
+      "Decides, for every outbound registration site, what its callback does in each of the four situations on every path (re-arm same packet / release identifier / advance to PUBREL), that the identifiers and sessions involved are the registered ones, that a failed arming releases the fresh identifier, that the sweep runs on a ticker in a goroutine of Writer.Run and that all four ack packet types reach the in-flight table; plus the in-flight table's winner-takes-callback contract. Necessary conditions; timing is not decided.",
+      "Not decided: real deadlines and sweep timing, client behaviour, DUP flag semantics.")
+claim("C04",
+      "control dependence on atomic operation results, path enumeration from the winning Delete, parameter flow across static calls to an equality test in a scan, heap/index pairing on paths, key-function provenance (go/ssa)",
+      "Decides the winner-takes-callback protocol around PutIfMissing/Delete on every path, that no path removes an entry without resolving it exactly once, that each List.Delete implementation selects the item by id inside a scan, that heap and index are co-updated, that acknowledgement requires the expected type, and that keys depend on both session and identifier. Necessary conditions; heap order and time arithmetic are not decided.",
+      "Not decided: heap ordering, Round(time.Second) arithmetic, gotomic internals, concurrent schedules (lock discipline under C20).")
